@@ -172,7 +172,15 @@ class OperationGroup(ContextMixin, ContentMixin):
                     storage_limit if storage_limit is not None else default_storage_limit(x, constants),
                 )
             ),
-            'fee': lambda i, x: str(default_fee(x, gas_limit, minimal_nanotez_per_gas_unit) if i == 0 else 0),
+            # every content pays for its own bytes and gas, the first one also for the branch and the signature
+            'fee': lambda i, x: str(
+                default_fee(
+                    x,
+                    int(x['gas_limit']),
+                    minimal_nanotez_per_gas_unit,
+                    extra_size=(32 + 64 if i == 0 else 0) + 3 * 3,
+                )
+            ),
         }
 
         def fill_content(idx, content):
